@@ -8,6 +8,7 @@ templates (truncated lists, 206YYY / 221YYY put in front of composites, replicat
 cut) and on random bit strings, and reports how often each flag occurred.  No implementation involved.
 """
 import random
+import subprocess
 import sys
 
 from harness import core, tables_io
@@ -43,6 +44,27 @@ def mutate(rng, ids):
     return ids
 
 
+def safe_batch(drv, treq, reqs, stats):
+    """responses of reqs (pairs dec-data / dec-data-flat); a pair that does not finish (astronomic
+    replication counts over fields of width 0) is answered by {'timeout': True} twice"""
+    out = []
+    step = 120
+    for i in range(0, len(reqs), step):
+        part = reqs[i:i + step]
+        try:
+            out.extend(drv.batch([treq] + part, timeout=60)[1:])
+            continue
+        except subprocess.TimeoutExpired:
+            pass
+        for k in range(0, len(part), 2):
+            try:
+                out.extend(drv.batch([treq] + part[k:k + 2], timeout=10)[1:])
+            except subprocess.TimeoutExpired:
+                stats['timeout (both ops asked together)'] = stats.get('timeout (both ops asked together)', 0) + 1
+                out.extend([{'timeout': True}, {'timeout': True, 'wf': None, 'strict': None}])
+    return out
+
+
 def main():
     count = int(sys.argv[1]) if len(sys.argv) > 1 else 600
     seed = sys.argv[2] if len(sys.argv) > 2 else '0'
@@ -59,7 +81,7 @@ def main():
         cases = P.gen_values(drv, treq, cases, rng)
         reqs = [treq] + [{'op': 'enc-data', 'ids': c.ids, 'compressed': c.comp, 'vals': c.valss} for c in cases]
         enc = drv.batch(reqs)[1:]
-        reqs = [treq]
+        reqs = []
         meta = []
         for c, e in zip(cases, enc):
             bits = e.get('bits', '')
@@ -70,9 +92,12 @@ def main():
                 for op in ('dec-data', 'dec-data-flat'):
                     reqs.append({'op': op, 'ids': ids, 'compressed': c.comp, 'n': c.n, 'bits': b})
                 meta.append((ids, c, tag))
-        res = drv.batch(reqs)[1:]
+        res = safe_batch(drv, treq, reqs, stats)
         for k, (ids, c, tag) in enumerate(meta):
             tree, flat = res[2 * k], res[2 * k + 1]
+            if 'timeout' in tree:
+                print('timeout:', ids, c.comp, c.n, tag)
+                continue
             same = strip(flat) == tree
             key = '%s wf=%s strict=%s %s %s' % (tag, flat['wf'], flat['strict'],
                                                 'ok' if 'subsets' in flat else 'err', 'same' if same else 'DIFF')
